@@ -168,7 +168,12 @@ func (c *GroupCoordinator) JoinGroup(ctx context.Context, req *kmsg.JoinGroupReq
 	} else if state.state == groupStateEmpty {
 		state.startRebalance(timeout)
 	} else if state.state == groupStatePreparingRebalance || state.state == groupStateCompletingRebalance {
-		state.bumpRebalanceDeadline(timeout)
+		// Only a member joining this generation for the first time extends the
+		// deadline. The polls of members that already joined must not, or the
+		// deadline never arrives and silent members are never dropped.
+		if !exists || member.joinGeneration != state.generationID {
+			state.bumpRebalanceDeadline(timeout)
+		}
 	}
 
 	member.joinGeneration = state.generationID
